@@ -44,6 +44,7 @@ Proof.
       | H : f_srnc ?p = _ |- _ => destruct p; simpl in H; inversion H; subst
       | H : f_set ?p = _ |- _ => destruct p; simpl in H; inversion H; subst end; simpl; auto; try discriminate; try congruence; fail).
   intros E1. congruence.
+  all: destruct (ds s d); simpl in *; congruence.
 Qed.
 
 Lemma MONO_step s e s' : step s e = Some s' -> MONO s s'.
